@@ -49,9 +49,30 @@ unsafe impl<L: Lockable> RawLock for RetryingLockCollection<L> {
 			return;
 		}
 
-		// these will be unlocked in case of a panic
+		// these will be unlocked in case of a panic: every lock before index
+		// `tried`, except for `first_index`, which is held if and only if
+		// `first_held` is set
 		let first_index = Cell::new(0);
-		let locked = Cell::new(0);
+		let first_held = Cell::new(false);
+		let tried = Cell::new(0);
+		let unlock_held = || unsafe {
+			let mut held = Vec::with_capacity(tried.get() + 1);
+			for (i, lock) in locks[0..tried.get()].iter().enumerate() {
+				if i != first_index.get() {
+					held.push(*lock);
+				}
+			}
+			if first_held.get() {
+				held.push(locks[first_index.get()]);
+			}
+
+			// nothing is locked anymore, even if one of the unlocks panics
+			tried.set(0);
+			first_held.set(false);
+
+			// safety: we already locked all of these
+			attempt_to_recover_writes_from_panic(&held);
+		};
 		handle_unwind(
 			|| unsafe {
 				'outer: loop {
@@ -59,9 +80,11 @@ unsafe impl<L: Lockable> RawLock for RetryingLockCollection<L> {
 					// the same lock to be unlocked
 					// safety: we have the thread key
 					locks[first_index.get()].raw_write();
+					first_held.set(true);
 					for (i, lock) in locks.iter().enumerate() {
 						if i == first_index.get() {
 							// we've already locked this one
+							tried.set(i + 1);
 							continue;
 						}
 
@@ -71,18 +94,9 @@ unsafe impl<L: Lockable> RawLock for RetryingLockCollection<L> {
 						// immediately after, causing a panic
 						// safety: we have the thread key
 						if lock.raw_try_write() {
-							locked.set(locked.get() + 1);
+							tried.set(i + 1);
 						} else {
-							// safety: we already locked all of these
-							attempt_to_recover_writes_from_panic(&locks[0..i]);
-							if first_index.get() >= i {
-								// safety: this is already locked and can't be
-								//         unlocked by the previous loop
-								locks[first_index.get()].raw_unlock_write();
-							}
-
-							// nothing is locked anymore
-							locked.set(0);
+							unlock_held();
 
 							// call lock on this to prevent a spin loop
 							first_index.set(i);
@@ -94,12 +108,7 @@ unsafe impl<L: Lockable> RawLock for RetryingLockCollection<L> {
 					break;
 				}
 			},
-			|| {
-				utils::attempt_to_recover_writes_from_panic(&locks[0..locked.get()]);
-				if first_index.get() >= locked.get() {
-					locks[first_index.get()].raw_unlock_write();
-				}
-			},
+			&unlock_held,
 		)
 	}
 
@@ -150,32 +159,46 @@ unsafe impl<L: Lockable> RawLock for RetryingLockCollection<L> {
 			return;
 		}
 
-		let locked = Cell::new(0);
+		// these will be unlocked in case of a panic: every lock before index
+		// `tried`, except for `first_index`, which is held if and only if
+		// `first_held` is set
 		let first_index = Cell::new(0);
+		let first_held = Cell::new(false);
+		let tried = Cell::new(0);
+		let unlock_held = || unsafe {
+			let mut held = Vec::with_capacity(tried.get() + 1);
+			for (i, lock) in locks[0..tried.get()].iter().enumerate() {
+				if i != first_index.get() {
+					held.push(*lock);
+				}
+			}
+			if first_held.get() {
+				held.push(locks[first_index.get()]);
+			}
+
+			// these are no longer locked, even if one of the unlocks panics
+			tried.set(0);
+			first_held.set(false);
+
+			// safety: we already locked all of these
+			attempt_to_recover_reads_from_panic(&held);
+		};
 		handle_unwind(
 			|| 'outer: loop {
 				// safety: we have the thread key
 				locks[first_index.get()].raw_read();
+				first_held.set(true);
 				for (i, lock) in locks.iter().enumerate() {
 					if i == first_index.get() {
+						tried.set(i + 1);
 						continue;
 					}
 
 					// safety: we have the thread key
 					if lock.raw_try_read() {
-						locked.set(locked.get() + 1);
+						tried.set(i + 1);
 					} else {
-						// safety: we already locked all of these
-						attempt_to_recover_reads_from_panic(&locks[0..i]);
-
-						if first_index.get() >= i {
-							// safety: this is already locked and can't be unlocked
-							//         by the previous loop
-							locks[first_index.get()].raw_unlock_read();
-						}
-
-						// these are no longer locked
-						locked.set(0);
+						unlock_held();
 
 						// don't go into a spin loop, wait for this one to lock
 						first_index.set(i);
@@ -186,12 +209,7 @@ unsafe impl<L: Lockable> RawLock for RetryingLockCollection<L> {
 				// safety: we locked all the data
 				break;
 			},
-			|| {
-				utils::attempt_to_recover_reads_from_panic(&locks[0..locked.get()]);
-				if first_index.get() >= locked.get() {
-					locks[first_index.get()].raw_unlock_read();
-				}
-			},
+			&unlock_held,
 		)
 	}
 
